@@ -210,6 +210,8 @@ pub enum PayClass {
     Invalid,
     Empty,
     Newline,
+    /// starts with a marker that real chains use inside OP_RETURN outputs (segwit commitment, Omni, RSK, ...)
+    Marker,
 }
 
 fn utf8_multibyte(n: usize) -> BS<Vec<u8>> {
@@ -243,7 +245,12 @@ pub fn opreturn_payload(tier: Tier) -> BS<(PayClass, Vec<u8>)> {
     });
     // payloads made of white space only (they are non-empty and must be printed)
     let blank = vec(proptest::sample::select(vec![" ", "\t", "\u{3000}", "\u{a0}", "\u{2028}", "\u{b}", "\u{c}", "\u{85}", "\u{feff}"]), 1..6).prop_map(|v| (PayClass::Whitespace, v.concat().into_bytes()));
-    weighted(vec![(5, ascii.boxed()), (3, multi.boxed()), (3, invalid.boxed()), (1, empty.boxed()), (2, newline.boxed()), (1, blank.boxed())])
+    // well-known protocol markers followed by binary or text data: the BIP141 witness commitment (aa21a9ed + 32 bytes,
+    // 36 bytes in all), merge-mining and token protocol tags; nothing in the statement treats them specially
+    let marker = (proptest::sample::select(vec![&[0xaau8, 0x21, 0xa9, 0xed][..], b"omni", b"RSKBLOCK:", b"DOCPROOF", b"EW", b"id", b"SPK", b"\xfa\xbe\x6d\x6d", b"CC", b"Bitcoin: ", b"OA\x01\x00"]), prop_oneof![3 => Just(32usize), 1 => Just(34usize), 2 => 0usize..60], any::<bool>())
+        .prop_flat_map(|(m, n, text)| (Just(m), if text { vec(0x20u8..0x7f, n).boxed() } else { vec(any::<u8>(), n).boxed() }))
+        .prop_map(|(m, tail)| { let mut v = m.to_vec(); v.extend(tail); (PayClass::Marker, v) });
+    weighted(vec![(5, ascii.boxed()), (3, multi.boxed()), (3, invalid.boxed()), (1, empty.boxed()), (2, newline.boxed()), (1, blank.boxed()), (2, marker.boxed())])
         .prop_map(|(c, v)| {
             // a payload must not look like a log line ("[hh:mm:ss] LEVEL - target: ")
             let s = String::from_utf8_lossy(&v);
@@ -746,8 +753,17 @@ pub fn monotonic_time() -> BS<u32> {
     (1_231_006_505u32..1_700_000_000).boxed()
 }
 
+/// the wall clock at process start (the only use of the clock in a generator: header times a few hours around
+/// "now" are a class of their own because code may compare them with the current time; the oracles are functions
+/// of the data alone, and a replay file records the concrete values)
+pub fn now_epoch() -> u32 {
+    static NOW: std::sync::OnceLock<u32> = std::sync::OnceLock::new();
+    *NOW.get_or_init(|| std::time::SystemTime::now().duration_since(std::time::UNIX_EPOCH).map(|d| d.as_secs() as u32).unwrap_or(1_790_000_000))
+}
+
 pub fn wild_time() -> BS<u32> {
-    prop_oneof![3 => 1u32..=u32::MAX, 2 => 1_231_006_505u32..1_300_000_000, 1 => Just(1u32), 1 => Just(u32::MAX), 1 => Just(4_000_000_000u32)].boxed()
+    let now = now_epoch();
+    prop_oneof![6 => 1u32..=u32::MAX, 4 => 1_231_006_505u32..1_300_000_000, 2 => Just(1u32), 2 => Just(u32::MAX), 2 => Just(4_000_000_000u32), 3 => now - 4 * 3600..now + 4 * 3600, 1 => now + 7190..now + 7300].boxed()
 }
 
 impl ChainCfg {
@@ -800,5 +816,7 @@ pub fn wide_base() -> BS<u64> {
         2 => 16512u64..2_113_664,
         1 => 2_113_664u64..10_000_000,
         1 => prop_oneof![Just(209_990u64), Just(419_995u64), Just(629_998u64), Just(120u64), Just(16_505u64), Just(2_113_660u64)],
+        // heights are an `int` in Bitcoin Core: power-of-two neighbourhoods, the 4/5-byte VarInt boundary (270 549 120), up to 2^31 - 1
+        1 => prop_oneof![Just(65_530u64), Just((1u64 << 24) - 5), Just(270_549_115u64), Just(270_549_120u64), Just((1u64 << 31) - 70), 270_549_120u64..(1u64 << 31) - 70],
     ].boxed()
 }
